@@ -251,6 +251,7 @@ TextFile& TextFile::operator>>(String &x)
 	if(!_file && !open(READ))
 		return *this;
 	char s[256];
+	s[0] = '\0'; // nothing left to read: the result is empty
 	int n = fscanf(_file, "%255s", s); if (n < 1) {}
 	x = &s[0];
 	return *this;
